@@ -59,6 +59,7 @@ def run(ctx: Any, prog: Program) -> None:
     ctx.rule('C10.B5', 'compression flag, stored length and decompression are symmetric between save() and read()', floor=6)
     ctx.rule('C10.B7', 'save() decides lump by lump, in rebuild order, whether a view is parsed (writers parse further views while saving)', floor=2)
     ctx.rule('C10.B8', 'lump writers do not modify header-level state (map revision, version, lump versions/flags)', floor=20)
+    ctx.rule('C10.B9', 'the output separator used on save is the one observed in the entity lump, not guessed from the header version', floor=2)
     ctx.rule('C10.B6', 'ParsedLump.__get__ caches the parsed value and blanks exactly to_clear', floor=2)
 
     order_node = bsp.global_assign('LUMP_REBUILD_ORDER')
@@ -203,6 +204,25 @@ def run(ctx: Any, prog: Program) -> None:
                             bad = (n, ast.unparse(el))
             ctx.check('C10.B8', bad is None, bsp, bad[0] if bad else fn, (f'{fname} assigns {bad[1]}: rebuilding a view that was merely looked at changes the saved header' if bad else 'no header state written'),
                       func=f'BSP.{fname}', text=f'{fname} leaves header state alone' if bad is None else f'{fname} writes {bad[1]}')
+    # ---- B9 --------------------------------------------------------------------------------------------
+    re_ents = ms['_lmp_read_ents']
+    sets_sep = [n for n in ast.walk(re_ents) if isinstance(n, ast.Assign) and dotted(n.targets[0]) == 'self.out_comma_sep']
+    if not sets_sep:
+        ctx.shape('C10.B9', False, bsp, re_ents, 'the entity lump reader never records the separator it saw', func='BSP._lmp_read_ents', text='separator observed from data')
+    local_vars = {x.id for x in ast.walk(re_ents) if isinstance(x, ast.Name) and isinstance(x.ctx, ast.Store)} | {a.arg for a in re_ents.args.args[1:]}
+    for n in sets_sep:
+        names: Set[str] = set()
+        p_ = bsp.parents.get(n)
+        while p_ is not None and p_ is not re_ents:
+            if isinstance(p_, ast.If):
+                names |= {x.id for x in ast.walk(p_.test) if isinstance(x, ast.Name)} - {'self'}
+            p_ = bsp.parents.get(p_)
+        names |= {x.id for x in ast.walk(n.value) if isinstance(x, ast.Name)} - {'self'}
+        names &= local_vars
+        ctx.check('C10.B9', bool(names), bsp, n, f'`{ast.unparse(n)}` fixes the output separator without looking at the lump (it depends only on {sorted({ast.unparse(x) for x in ast.walk(n.value) if isinstance(x, ast.Attribute)}) or "constants"}): '
+                  'a map whose version suggests one separator but whose outputs use the other is rewritten with the wrong one, and outputs containing commas stop parsing', func='BSP._lmp_read_ents', text='separator observed from data')
+    ok = any(isinstance(c, ast.Call) and dotted(c.func) == 'self.write_ent_data' and len(c.args) >= 2 and dotted(c.args[1]) == 'self.out_comma_sep' for c in ast.walk(ms['_lmp_write_ents']))
+    ctx.shape('C10.B9', ok, bsp, ms['_lmp_write_ents'], 'the writer passes the recorded separator on', func='BSP._lmp_write_ents', text='separator passed to writer')
     # ---- B4 --------------------------------------------------------------------------------------------
     rd = ms['read']
     sv = ms['save']
@@ -353,6 +373,7 @@ def run(ctx: Any, prog: Program) -> None:
 
 
 MUTANTS = [
+    {'id': 'separator_from_version', 'file': 'bsp.py', 'find': "        vmf = VMF()\n", 'replace': "        vmf = VMF()\n        if self.out_comma_sep is None:\n            self.out_comma_sep = self.version < VERSIONS.L4D2.value\n", 'expect': 'C10.B9'},
     {'id': 'save_snapshots_parsed_views', 'file': 'bsp.py', 'find': "        for lump_or_game in LUMP_REBUILD_ORDER:\n            try:\n                data = self._parsed_lumps.pop(lump_or_game)", 'replace': "        for lump_or_game in [x for x in LUMP_REBUILD_ORDER if x in self._parsed_lumps]:\n            try:\n                data = self._parsed_lumps.pop(lump_or_game)", 'expect': 'C10.B7'},
     {'id': 'ents_writer_sets_revision', 'file': 'bsp.py', 'find': "    def _lmp_write_ents(self, vmf: VMF) -> bytes:\n", 'replace': "    def _lmp_write_ents(self, vmf: VMF) -> bytes:\n        self.map_revision = vmf.map_ver\n", 'expect': 'C10.B8'},
     {'id': 'water_writer_reads_own_view', 'file': 'bsp.py', 'find': "        for info in data:\n            yield self.lump_layout['LEAFWATERDATA'].pack(", 'replace': "        for info in self.water_leaf_info:\n            yield self.lump_layout['LEAFWATERDATA'].pack(", 'expect': 'C10.B2'},
